@@ -310,6 +310,7 @@ class Machine:
                 c = (evs[0] & evs[1]) if o["a"] == 1 else (evs[0] | evs[1])
             else:
                 c = env.all_of(evs) if o["a"] == 1 else env.any_of(evs)
+                evs.clear()          # the caller's list is the caller's: what it does with it afterwards concerns nobody
             self.reg(c, "cond", probe=(o["b"] == 1))
             return None
         if k == "condforeign":
@@ -636,8 +637,9 @@ class Chooser:
         Z = {"b": 0, "c": 0, "s": []}
         if not is_top and g.get("resources"):
             held = self.holds_any(P)
-            if held and count >= g["max_ops"] - 1:
-                return dict(Z, k="withexit", a=held)            # leave the with-block before ending
+            nheld = sum(1 for r in range(1, len(m.resources)) if m.rkinds[r] in ("res", "prio", "preempt") and self.outstanding(P, r))
+            if held and count >= g["max_ops"] - nheld:
+                return dict(Z, k="withexit", a=held)            # leave every with-block before ending
         for _ in range(50):
             kinds = [k for k in table]
             k = rng.choices(kinds, [table[x] for x in kinds])[0]
@@ -681,7 +683,8 @@ class Chooser:
                     return {"k": k, "a": rng.choice(u), "b": 0, "c": c, "s": []}
             if k in ("baddelay", "condforeign"):
                 return {"k": k, "a": 0, "b": rng.choice([0, 1]), "c": 0, "s": []}
-            if k == "request" and room and count <= g["max_ops"] - 2:
+            if k == "request" and room and count <= g["max_ops"] - 2 - sum(
+                    1 for r in range(1, len(m.resources)) if m.rkinds[r] in ("res", "prio", "preempt") and self.outstanding(P, r)):
                 rs = [r for r in range(1, len(m.resources)) if m.rkinds[r] in ("res", "prio", "preempt") and not self.outstanding(P, r)]
                 if rs:
                     return {"k": k, "a": rng.choice(rs), "b": rng.choice(g.get("prios", [0, 1, 2])), "c": rng.choice([0, 1]), "s": []}
